@@ -373,8 +373,8 @@ namespace GeographicLib {
     /// \cond SKIP
     // Ellipsoid parameters
     real _a, _b, _f, _fm1, _e2, _e2m1, _e12, _e12p1, _n, _e, _e1, _n2, _q;
-    // To hold computed Fourier coefficients
-    mutable real _c[Lmax * AUXNUMBER * AUXNUMBER];
+    // To hold computed Fourier coefficients (filled by the constructors)
+    real _c[Lmax * AUXNUMBER * AUXNUMBER];
     // 1d index into AUXNUMBER x AUXNUMBER data
     static int ind(int auxout, int auxin) {
       return (auxout >= 0 && auxout < AUXNUMBER &&
@@ -390,7 +390,7 @@ namespace GeographicLib {
       return isinf(tphi) ? copysign(real(1), tphi) : tphi / sc(tphi);
     }
     // Populate [_c[Lmax * k], _c[Lmax * (k + 1)])
-    void fillcoeff(int auxin, int auxout, int k) const;
+    void fillcoeff(int auxin, int auxout, int k);
     // the function atanh(e * sphi)/e; works for e^2 = 0 and e^2 < 0
     real atanhee(real tphi) const;
     /// \endcond
